@@ -24,7 +24,7 @@ NPF = {'sum': np.sum, 'cumsum': np.cumsum, 'prod': np.prod, 'cumprod': np.cumpro
        'sort': np.sort, 'clip': np.clip, 'transpose': np.transpose, 'diagonal': np.diagonal, 'trace': np.trace, 'dot': np.dot, 'matmul': np.matmul,
        'fxp_max': np.max, 'fxp_min': np.min}
 CANON = {'amax': 'max', 'amin': 'min', 'fxp_max': 'max', 'fxp_min': 'min'}
-ALLOWED_KW = {'axis', 'offset', 'axis1', 'axis2', 'axes', 'a_min', 'a_max'}
+ALLOWED_KW = {'axis', 'offset', 'axis1', 'axis2', 'axes', 'a_min', 'a_max', 'min', 'max'}
 
 
 def make_judges(ctx):
@@ -94,6 +94,14 @@ def make_judges(ctx):
                 names = ('a', 'a_min', 'a_max')
                 d = dict(zip(names, eargs))
                 d.update(ekw)
+                if 'min' in d or 'max' in d:        # (the NumPy 2.1 spelling of the bounds)
+                    d.setdefault('a_min', d.get('min'))
+                    d.setdefault('a_max', d.get('max'))
+                    if d.get('a_min') is None:
+                        d['a_min'] = d.get('min')
+                    if d.get('a_max') is None:
+                        d['a_max'] = d.get('max')
+                    ctx.floor_hit(('clip_min_max_keywords',))
                 lo_, hi_ = d.get('a_min'), d.get('a_max')
                 if lo_ is None and hi_ is None:
                     ctx.skip('red:clip without any bound')
@@ -107,6 +115,8 @@ def make_judges(ctx):
                         return A.fr_array(b) if len(b.shape) else A.fr_array(b).item()
                     if isinstance(b, (list, tuple, np.ndarray)):
                         return np.array([F(v) for v in np.asarray(b).ravel().tolist()], dtype=object).reshape(np.asarray(b).shape)
+                    if isinstance(b, np.generic):
+                        b = b.item()        # (a Fraction built on a NumPy integer would calculate - and wrap - in that integer's type)
                     return F(b)
                 blo, bhi = bound(lo_), bound(hi_)
                 exp = d['a']
@@ -173,7 +183,14 @@ def make_judges(ctx):
         if cname == 'clip':
             d_ = dict(zip(('a', 'a_min', 'a_max'), fargs))
             d_.update(fkw)
+            if d_.get('a_min') is None:
+                d_['a_min'] = d_.get('min')
+            if d_.get('a_max') is None:
+                d_['a_max'] = d_.get('max')
             axk = 'bounds:%s/%s' % tuple('none' if b is None else type(b).__name__ for b in (d_.get('a_min'), d_.get('a_max')))
+            for b_ in (d_.get('a_min'), d_.get('a_max')):
+                if isinstance(b_, (np.generic, np.ndarray)) and np.asarray(b_).dtype.itemsize < 8 and np.asarray(b_).dtype.kind in 'iuf':
+                    ctx.floor_hit(('clip_narrow_numpy_bound', np.asarray(b_).dtype.kind))
             ctx.floor_hit(('clip_bounds', axk.split(':')[1]))
         if cname == 'transpose' and fkw.get('axes') is not None:
             axk = 'axes%s' % (tuple(fkw['axes']),)
@@ -204,7 +221,7 @@ def floors(tier):
     cells = [(f, r) for f in ('sum', 'cumsum', 'prod', 'cumprod', 'max', 'min', 'clip', 'transpose', 'diagonal', 'trace', 'dot') for r in ('numpy', 'method')]
     cells += [('sort', 'numpy'), ('sort', 'method'), ('matmul', 'numpy'), ('transpose_axes',)]
     cells += [('clip_bounds', b) for b in ('float/float', 'ndarray/ndarray', 'list/list', 'Fxp/Fxp', 'float/none', 'none/float')]
-    cells += [('clip_bounds_other_format',)]
+    cells += [('clip_bounds_other_format',), ('clip_min_max_keywords',), ('clip_narrow_numpy_bound', 'i'), ('clip_narrow_numpy_bound', 'u'), ('clip_narrow_numpy_bound', 'f')]
     cells += [('edge_format', f) for f in ('sum', 'cumsum', 'prod', 'cumprod', 'dot', 'clip', 'max', 'sort')]
     cells += [('acc_significant_bits>24', 'dot'), ('acc_significant_bits>11', 'dot'), ('acc_significant_bits>11', 'sum'), ('noncontiguous_operand',)]
     return cells
@@ -350,6 +367,26 @@ def run_case(case, ctx):
             _try(lambda: x.clip(blo, bhi))
             _try(lambda: np.clip(x, blo, amax))
             ctx.floor_hit(('clip_bounds_other_format',))
+    # bounds given as NumPy numbers / arrays of a narrow type (int8, uint8, int16, float16, float32), whole-valued so that every type carries them exactly; with the
+    # element that gets clipped first or last; the NumPy 2.1 keyword spelling
+    ia, ib = sorted([int(F(a) * R.lsb(nf)), int(F(b) * R.lsb(nf))])
+    for tp in (np.int8, np.uint8, np.int16, np.float16, np.float32):
+        if nf < 0 or F(ia) != F(a) * R.lsb(nf) or F(ib) != F(b) * R.lsb(nf):
+            break                   # (the bounds have to be whole numbers that the format holds)
+        if tp is np.uint8 and ia < 0:
+            if ib < 0 or lo > 0:
+                continue
+            ia_, ib_ = 0, ib
+        else:
+            ia_, ib_ = ia, ib
+        if -128 <= ia_ <= 127 and -128 <= ib_ <= 127 and (tp is not np.uint8 or ia_ >= 0) and ia_ <= ib_:
+            _try(lambda: np.clip(x, tp(ia_), tp(ib_)))
+            _try(lambda: x.clip(tp(ia_), None))
+            _try(lambda: np.clip(x, None, np.full(shape, ib_, dtype=tp)))
+            _try(lambda: np.clip(x[::-1], tp(ia_), float(ib_)))
+    _try(lambda: np.clip(x, min=amin, max=amax))
+    _try(lambda: x.clip(min=amin))
+    _try(lambda: np.clip(x, amin, max=amax))
     _try(lambda: np.clip(x, amin, None))
     _try(lambda: x.clip(a_max=amax))
     _try(lambda: np.clip(x, None, amax))
